@@ -180,12 +180,19 @@ def t1(ctx):
         verify_contract(ctx, SUITE, c, sentinels=False, replay=replay_ages)
     from contracts import _wf
     _wf.validate(ctx)
+    from contracts import C17prec
+    C17prec.t1(ctx)
 
 
 def replay(ctx, rec):
     import dendropy
     from dendropy.utility.error import UltrametricityError
     w = rec.get("witness", {})
+    if str(rec.get("obligation", "")).startswith("precision-") or str(w.get("key", "")).startswith(("precision|", "site:precision", "site:dendropy")):
+        from contracts import C17prec
+        r = C17prec.replay(ctx, rec)
+        if r is not None:
+            return r
     if "tree" not in w:
         print("no input recorded for this obligation")
         return True
